@@ -316,6 +316,7 @@ func c13(r *ev.Run) {
 	r.Require("e2e_roundtrips", 200)
 	r.Require("e2e_stored_compressed", 50)
 	r.Require("e2e_redirected_writes", 4)
+	r.Require("e2e_redirected_reads", 4)
 }
 
 // c13EndToEnd: real proxy, compression on, value-mode nodes.
@@ -567,6 +568,71 @@ func c13EndToEnd(r *ev.Run) {
 				cl.Lock()
 				owner.SetMigratingLocked(slot, nil)
 				other.SetImportingLocked(slot, nil)
+				cl.Unlock()
+			}
+		}
+
+		// reads redirected once by MOVED and by ASK: the value was stored compressed by an ordinary write, then the slot moves
+		for _, mode := range []string{"MOVED", "ASK"} {
+			for rep := 0; rep < 4; rep++ {
+				key := fmt.Sprintf("rread.%s.%d.%d", mode, t, rep)
+				l := int(t) + 300 + rnd.Intn(2000)
+				v, kind := genCpsValue(rnd, l)
+				for i := range v {
+					v[i] = byte('a' + i%5) // compressible: stored with the header
+				}
+				want := append([]byte{}, v...)
+				if _, err := conn.Do(30*time.Second, []byte("SET"), []byte(key), v); err != nil {
+					break
+				}
+				conn.Do(30*time.Second, []byte("HSET"), []byte("{"+key+"}.h"), []byte("f"), append([]byte{}, want...))
+				slot := fakecluster.Slot([]byte(key))
+				cl.Lock()
+				owner := cl.Nodes[0].OwnerLocked(slot)
+				var other *fakecluster.Node
+				for _, m := range cl.Masters() {
+					if m != owner {
+						other = m
+					}
+				}
+				if mode == "MOVED" {
+					for _, k := range []string{key, "{" + key + "}.h"} {
+						cl.MigrateKeyLocked(owner, other, k)
+					}
+					cl.SetOwnerLocked(slot, other)
+				} else {
+					owner.SetMigratingLocked(slot, other)
+					other.SetImportingLocked(slot, owner)
+					for _, k := range []string{key, "{" + key + "}.h"} {
+						cl.MigrateKeyLocked(owner, other, k) // absent on the source now: ASK
+					}
+				}
+				cl.Unlock()
+				amu.Lock()
+				before := redirected
+				amu.Unlock()
+				for _, rd := range [][]string{{"GET", key}, {"HGET", "{" + key + "}.h", "f"}, {"MGET", key}} {
+					got, err := conn.DoS(30*time.Second, rd...)
+					if rd[0] == "MGET" && err == nil && got.Kind == resp.Array && len(got.Arr) == 1 {
+						got = got.Arr[0]
+					}
+					if err != nil || got.Kind != resp.Bulk || !bytes.Equal(got.Str, want) {
+						r.Violation("C13:e2e-redirected-read:"+mode+":"+strings.ToLower(rd[0]), "a compressed value read through a "+mode+"-redirected "+rd[0]+" is not byte-identical to what was written",
+							map[string]interface{}{"mode": mode, "read": rd[0], "len_written": len(want), "read_back": got.String(), "threshold": t, "value_kind": kind})
+					}
+				}
+				amu.Lock()
+				if redirected > before {
+					r.Count("e2e_redirected_reads", 1)
+				}
+				amu.Unlock()
+				r.Case(fmt.Sprintf("e2e/redirected-read/%s/t%d", mode, t))
+				cl.Lock()
+				owner.SetMigratingLocked(slot, nil)
+				other.SetImportingLocked(slot, nil)
+				if mode == "ASK" {
+					cl.SetOwnerLocked(slot, other) // finish the migration
+				}
 				cl.Unlock()
 			}
 		}
